@@ -47,6 +47,7 @@ func addC20Ops(l *OpLib) {
 	spot("ts_spot_limitbuy_met_own1", "own1", tstypes.SpotOrderType_LIMITBUY, "uusdc", "uatom", "0.5", C("uusdc", 2000000), "uatom")
 	spot("ts_spot_limitbuy_unmet_own1", "own1", tstypes.SpotOrderType_LIMITBUY, "uusdc", "uatom", "0.15", C("uusdc", 3000000), "uatom")
 	spot("ts_spot_limitsell_met_own1", "own1", tstypes.SpotOrderType_LIMITSELL, "uatom", "uusdc", "4.5", C("uatom", 700000), "uusdc")
+	spot("ts_spot_limitsell_unmet_own1", "own1", tstypes.SpotOrderType_LIMITSELL, "uatom", "uusdc", "7", C("uatom", 800000), "uusdc")
 	spot("ts_spot_stoploss_unmet_own1", "own1", tstypes.SpotOrderType_STOPLOSS, "uatom", "uusdc", "3.5", C("uatom", 900000), "uusdc")
 	spot("ts_spot_limitbuy_met_own2", "own2", tstypes.SpotOrderType_LIMITBUY, "uusdc", "uatom", "0.5", C("uusdc", 1100000), "uatom")
 	spot("ts_marketbuy_own2", "own2", tstypes.SpotOrderType_MARKETBUY, "uusdc", "uatom", "0.5", C("uusdc", 1500000), "uatom")
@@ -134,8 +135,11 @@ func addC20Ops(l *OpLib) {
 		a := w.A("own2").Addr.String()
 		p.Txs = []PlannedTx{{Signer: "own2", Msgs: []sdk.Msg{&tstypes.MsgCancelSpotOrders{Creator: a, SpotOrderIds: sids}}}, {Signer: "own2", Msgs: []sdk.Msg{&tstypes.MsgCancelPerpetualOrders{OwnerAddress: a, OrderIds: pids}}}}
 	})
-	exec := func(name string, extraMissing bool, twice bool) {
+	exec := func(name string, extraMissing bool, twice bool, at ...string) {
 		l.Add(name, "ts_execute", 0, func(w *World, p *BlockPlan) {
+			if len(at) > 0 {
+				p.SetAtom = at[0] // the feeder's tx precedes the execute request in the same block
+			}
 			sids, pids := []uint64{}, []uint64{}
 			for _, o := range pendingSpotOf(w, "") {
 				sids = append(sids, o.OrderId)
@@ -156,6 +160,9 @@ func addC20Ops(l *OpLib) {
 	exec("ts_execute_all_bot", false, false)
 	exec("ts_execute_all_plus_missing_bot", true, false)
 	exec("ts_execute_all_twice", false, true)
+	// price move and execution in ONE block: orders that were unmet when created become met
+	exec("ts_execute_all_bot_at_3", false, false, "3")
+	exec("ts_execute_all_bot_at_8", false, false, "8")
 	l.Add("cfg_perp_maxpos0", "config", 1, func(w *World, p *BlockPlan) {
 		p.Gov = append(p.Gov, func(ctx sdk.Context) error {
 			pp := w.App.PerpetualKeeper.GetParams(ctx)
